@@ -29,7 +29,7 @@ ASSUMPTIONS = ["the behaviour/default tables re-stated here are the documented o
 MONITORS = ["policy_outcome", "first_offender_named", "unmodified", "second_call_same", "roundtrip_sm_ssc_sm"]
 REQUIRED = ["returned", "InvalidPropertyException", "NotImplementedError", "partial_mapping", "default_with_blanks",
             "nonempty_default_value", "two_offenders_table_order_differs", "template_with_charts", "chart_offender",
-            "copy_anyway_simfile_level", "error_behaviour", "template_empty"]
+            "copy_anyway_simfile_level", "error_behaviour", "template_empty", "chart_property_after_notes"]
 
 COPY, IGNORE, UNLESS_DEFAULT, ERROR = 1, 2, 3, 4
 KINDS = ["SSC_VERSION", "METADATA", "FILE_PATH", "GAMEPLAY_EVENT", "TIMING_DATA"]
@@ -107,7 +107,10 @@ def gen_source(rng, small=False):
             extra.append([k, state_value(rng, k, st)])
         its = six[:-1] + extra
         rng.shuffle(its)
-        its.append(six[-1])
+        if rng.random() < 0.3:
+            its.insert(rng.randint(0, len(its)), six[-1])  # edited charts may carry properties after their note data
+        else:
+            its.append(six[-1])
         charts.append(its)
     return {"items": items, "charts": charts}
 
@@ -324,6 +327,8 @@ def observe(ctx, source, mapping, case):
         ctx.feat("template_with_charts")
     if case.get("template") == "empty":
         ctx.feat("template_empty")
+    if any(its and its[-1][0] != "NOTES" and any(k == "NOTES" for k, _ in its) for its in source["charts"]):
+        ctx.feat("chart_property_after_notes")
     if not offenders and not dict(source["items"]).get("WARPS"):
         for its in source["charts"]:
             for k, v in its:
